@@ -14,9 +14,10 @@ class Phys:
     pass
 
 
-def run_static(sc, fit="dlite", method=None, ne=None, replace=True, pressure=False, allow_negatives=True, solve=True):
+def run_static(sc, fit="dlite", method=None, ne=None, replace=True, pressure=False, allow_negatives=True, solve=True, reset_err=True):
     """sc: statics.StaticCase (mesh in sc.bm).  Returns Phys or raises what the implementation raises."""
-    np.seterr(all="raise")
+    if reset_err:
+        np.seterr(all="raise")      # the state `import forsys` sets; reset_err=False keeps whatever earlier package calls left behind
     bm = sc.bm
     v, e, c = bm.vertices, bm.edges, bm.cells
     if ne is not None:
